@@ -129,6 +129,7 @@ package reflect
 //@     && (t.T == tMAP ==> t.MapTmpVarsPool != nil && !t.IsPointer)
 //@     && ((t.T == tLIST || t.T == tSET) ==> !t.IsPointer)
 //@     && ((t.T == tSTRING && !t.IsPointer) ==> (t.Tag == defs.T_string || t.Tag == defs.T_binary))
+//@     && (!t.SimpleType ==> t.AppendFunc != nil && t.EncodedSizeFunc != nil)
 
 // consequences of the tables (proved, not assumed): every wire type a descriptor can carry has a
 // positive minimum wire size, and for fixed-size kinds that minimum is the exact size.
@@ -137,9 +138,10 @@ package reflect
 //@     && (t.FixedSize == 0 || t.FixedSize == 1 || t.FixedSize == 2 || t.FixedSize == 4 || t.FixedSize == 8)
 
 //@ axiom wfT_V: forall t *tType :: {wfT(t), t.V} wfT(t) && (t.IsPointer || t.T == tMAP || t.T == tLIST || t.T == tSET) ==> t.V != nil && wfT(t.V)
+//@     && (!t.IsPointer && t.V.IsPointer ==> t.V.T == tSTRUCT)
 //@     && (t.IsPointer ==> !t.V.IsPointer && t.T == t.V.T && t.WT == t.V.WT && t.FixedSize == t.V.FixedSize && t.V.T != tMAP && t.V.T != tLIST && t.V.T != tSET)
 
-//@ axiom wfT_K: forall t *tType :: {wfT(t), t.K} wfT(t) && t.T == tMAP ==> t.K != nil && wfT(t.K)
+//@ axiom wfT_K: forall t *tType :: {wfT(t), t.K} wfT(t) && t.T == tMAP ==> t.K != nil && wfT(t.K) && (t.K.IsPointer ==> t.K.T == tSTRUCT)
 
 //@ axiom wfT_Sd: forall t *tType :: {wfT(t), t.Sd} wfT(t) && t.T == tSTRUCT ==> t.Sd != nil && wfSD(t.Sd)
 
@@ -157,6 +159,8 @@ package reflect
 
 //@ axiom wfF_base: forall f *tField :: {wfF(f)} wfF(f) ==> f != nil && f.Type != nil && wfT(f.Type) && f.Offset <= MAXELEM
 //@     && (f.NoCopy ==> f.Type.WT == tSTRING)
+//@     && (f.CanSkipIfDefault ==> f.Default != nil && !f.Type.IsPointer)
+//@     && (f.Type.IsPointer && f.Type.T != tSTRUCT ==> f.CanSkipEncodeIfNil)
 
 // ---------------------------------------------------------------------------
 // bitset.go : presence set for field ids 0..65535
@@ -396,3 +400,218 @@ package reflect
 //@   modifies M, $brk
 //@   call Decode ghost lvl = 1
 //@   ensures 0 <= n && n <= len(b)
+
+// ===========================================================================
+// ENCODER
+// ===========================================================================
+//
+// The wire specification (Thrift Binary Protocol) as writer transformers over
+// abstract byte sequences. W(t, m, p, s) appends the encoding of the value of
+// descriptor t stored at address p of memory m to the sequence s. It is written
+// from the protocol, not from the code: big-endian scalars, enum as i32, binary
+// as string, BE32 length-prefixed strings, typed+counted containers, field
+// header = wire type + id BE16, STOP after every struct, nil containers empty,
+// nil struct a lone STOP, unknown bytes re-emitted before STOP.
+
+//@ spec func W_fhdr(s BSeq, wt Int, id Int) BSeq = W_u16(snoc(s, wt), id)
+//@ spec func W_lhdr(s BSeq, et Int, n Int) BSeq = W_u32(snoc(s, et), n)
+//@ spec func W_mhdr(s BSeq, kt Int, vt Int, n Int) BSeq = W_u32(snoc(snoc(s, kt), vt), n)
+//@ spec func W_str(s BSeq, m Mem, ptr Int, n Int) BSeq = catm(W_u32(s, n % 4294967296), m, ptr, n)
+//@ spec func u32(x Int) Int = x % 4294967296
+
+// value at p (pointer already dereferenced)
+//@ spec rec func W(t *tType, m Mem, p Int, s BSeq) BSeq =
+//@     (t.T == tBOOL || t.T == tBYTE) ? snoc(s, m[p]) :
+//@     t.T == tI16 ? W_u16(s, ld16(m, p)) :
+//@     t.T == tI32 ? W_u32(s, ld32(m, p)) :
+//@     t.T == tENUM ? W_u32(s, u32(sgn64(ld64(m, p)))) :
+//@     (t.T == tI64 || t.T == tDOUBLE) ? W_u64(s, ld64(m, p)) :
+//@     t.T == tSTRING ? W_str(s, m, ld64(m, p), sgn64(ld64(m, p + 8))) :
+//@     t.T == tSTRUCT ? WS(t.Sd, m, p, s) :
+//@     (t.T == tLIST || t.T == tSET) ? WL(t.V, m, ld64(m, p), lcount(m, p), W_lhdr(s, t.V.WT, lcount(m, p))) :
+//@     WM(t, m, ld64(m, p), mcount(m, p), W_mhdr(s, t.K.WT, t.V.WT, mcount(m, p)))
+
+// slot q holds the value, or a pointer to it when t.IsPointer
+//@ spec func Wslot(t *tType, m Mem, q Int, s BSeq) BSeq = t.IsPointer ? W(t, m, ld64(m, q), s) : W(t, m, q, s)
+
+// element counts as written in the headers (32-bit truncation of the live length)
+//@ spec func lcount(m Mem, p Int) Int = ld64(m, p) == 0 ? 0 : u32(ld64(m, p + 8))
+//@ spec func mcount(m Mem, p Int) Int = ld64(m, p) == 0 ? 0 : u32(nmaplen(ld64(m, p)))
+
+// struct at b: nil -> lone STOP; else fields in declaration (id) order, unknown bytes, STOP
+//@ spec rec func WS(sd *structDesc, m Mem, b Int, s BSeq) BSeq = b == 0 ? snoc(s, 0) : snoc(Wunk(sd, m, b, WF(sd, m, b, len(sd.fields), s)), 0)
+//@ spec rec func WF(sd *structDesc, m Mem, b Int, k Int, s BSeq) BSeq = k <= 0 ? s :
+//@     (fskip(sd.fields[k-1], m, b) ? WF(sd, m, b, k-1, s) : Wslot(sd.fields[k-1].Type, m, b + sd.fields[k-1].Offset, W_fhdr(WF(sd, m, b, k-1, s), sd.fields[k-1].Type.WT, sd.fields[k-1].ID)))
+//@ spec func Wunk(sd *structDesc, m Mem, b Int, s BSeq) BSeq = (sd.hasUnknownFields && sgn64(ld64(m, b + sd.unknownFieldsOffset + 8)) > 0) ? catm(s, m, ld64(m, b + sd.unknownFieldsOffset), sgn64(ld64(m, b + sd.unknownFieldsOffset + 8))) : s
+
+// list elements: j elements starting at address d ("remaining work" recursion, no multiplication)
+//@ spec rec func WL(t *tType, m Mem, d Int, j Int, s BSeq) BSeq = j <= 0 ? s : WL(t, m, d + t.Size, j - 1, Wslot(t, m, d, s))
+// map entries 0..j-1 in iteration order (A-RANGE)
+//@ spec rec func WM(t *tType, m Mem, mm Int, j Int, s BSeq) BSeq = j <= 0 ? s : Wslot(t.V, m, entryV(mm, j-1), Wslot(t.K, m, entryK(mm, j-1), WM(t, m, mm, j-1, s)))
+
+// a field is omitted iff it is optional and nil (pointer/binary/container) or equal to its declared default
+//@ spec func fskip(f *tField, m Mem, b Int) bool = (f.CanSkipEncodeIfNil && ld64(m, b + f.Offset) == 0) || (f.CanSkipIfDefault && eqv(f.Type, m, f.Default, b + f.Offset))
+//@ spec func eqv(t *tType, m Mem, p0 Int, p1 Int) bool =
+//@     t.T == tBOOL ? ((m[p0] != 0) <==> (m[p1] != 0)) :
+//@     t.T == tBYTE ? m[p0] == m[p1] :
+//@     t.T == tDOUBLE ? feq(ld64(m, p0), ld64(m, p1)) :
+//@     t.T == tI16 ? ld16(m, p0) == ld16(m, p1) :
+//@     t.T == tI32 ? ld32(m, p0) == ld32(m, p1) :
+//@     (t.T == tI64 || t.T == tENUM) ? ld64(m, p0) == ld64(m, p1) :
+//@     t.T == tSTRING ? streqm(m, ld64(m, p0), sgn64(ld64(m, p0 + 8)), ld64(m, p1), sgn64(ld64(m, p1 + 8))) : false
+
+//@ func (t *tType) Equal(p0 unsafe.Pointer, p1 unsafe.Pointer) (r bool)
+//@   requires t != nil && p0 != nil && p1 != nil
+//@   modifies nothing
+//@   ensures c10_equal: r == eqv(t, M, p0, p1)
+
+//@ func (d *structDesc) Name() (s string)
+//@   requires d != nil && d.rt != nil
+//@   modifies nothing
+
+//@ func withFieldErr(err error, sd *structDesc, f *tField) (r error)
+//@   requires sd != nil && f != nil && sd.rt != nil
+//@   modifies nothing
+//@   ensures r != nil
+
+// --- leaf writers / headers -------------------------------------------------
+
+//@ func appendMapBool(b []byte, v bool) (r []byte)
+//@   abstract b, r
+//@   modifies nothing
+//@   ensures r == snoc(b, v ? 1 : 0)
+
+//@ func checkMapN(n uint32) (err error)
+//@   modifies nothing
+//@   ensures (err == nil) <==> (n == 0)
+
+// t is the ELEMENT type here (callers pass t.V)
+//@ func appendListHeader(t *tType, b []byte, p unsafe.Pointer) (r []byte, n uint32, d unsafe.Pointer)
+//@   abstract b, r
+//@   requires t != nil && p != nil
+//@   modifies nothing
+//@   ensures c02_hdr: n == lcount(M, p) && r == W_lhdr(b, t.WT, n)
+//@   ensures ld64(p) == 0 ==> d == nil
+//@   ensures ld64(p) != 0 ==> d == ld64(p)
+
+//@ func appendMapHeader(t *tType, b []byte, p unsafe.Pointer) (r []byte, n uint32)
+//@   abstract b, r
+//@   requires t != nil && t.K != nil && t.V != nil && p != nil
+//@   modifies nothing
+//@   ensures c02_hdr: n == mcount(M, p) && r == W_mhdr(b, t.K.WT, t.V.WT, n)
+
+// --- calls through tType.AppendFunc -------------------------------------------
+// Every function stored in AppendFunc is proved against this contract under its own row
+// condition (its requires); the registration tables are proved to select a function whose row
+// condition holds (rows of init#listtable / init#maptable, see DESIGN.md 6/C02).
+//@ dyn tType.AppendFunc(self *tType, t *tType, b []byte, p unsafe.Pointer) (r []byte, err error)
+//@   abstract b, r
+//@   requires c02_self: self == t
+//@   requires wfT(t) && !t.SimpleType && (t.T == tSTRUCT || p != nil)
+//@   modifies nothing
+//@   ensures c02_value: err == nil ==> r == W(t, M, p, b)
+
+//@ func appendAny(t *tType, b []byte, p unsafe.Pointer) (r []byte, err error)
+//@   abstract b, r
+//@   requires wfT(t) && p != nil && (t.IsPointer && t.T != tSTRUCT ==> ld64(p) != 0)
+//@   modifies nothing
+//@   ensures c02_value: err == nil ==> r == Wslot(t, M, p, b)
+
+//@ func appendStruct(t *tType, b []byte, base unsafe.Pointer) (r []byte, err error)
+//@   abstract b, r
+//@   requires t != nil && wfSD(t.Sd)
+//@   modifies nothing
+//@   ensures c02_value: err == nil ==> r == WS(t.Sd, M, base, b)
+//@   loop 0 invariant c02_fields: b == WF(sd, M, base, rangeindex + 1, old(b))
+//@   loop 0 hint c02_skipped: fskip(f, M, base) ==> b == head(b)
+//@   loop 0 hint c02_written: !fskip(f, M, base) ==> b == Wslot(f.Type, M, base + f.Offset, W_fhdr(head(b), f.Type.WT, f.ID))
+
+// --- list fast paths ----------------------------------------------------------
+//@ func appendList_I08(t *tType, b []byte, p unsafe.Pointer) (r []byte, err error)
+//@   abstract b, r
+//@   requires c02_row: wfT(t) && (t.T == tLIST || t.T == tSET) && t.V.T == tBYTE && !t.V.IsPointer && p != nil
+//@   modifies nothing
+//@   ensures c02_value: err == nil && r == W(t, M, p, b)
+//@   loop 0 invariant c02_elems: vp != nil && i <= n && (i == 0 ==> WL(t, M, vp, n, b) == W(old(t), M, p, old(b))) && (i > 0 ==> WL(t, M, vp + t.Size, n - i, b) == W(old(t), M, p, old(b)))
+
+//@ func appendList_I16(t *tType, b []byte, p unsafe.Pointer) (r []byte, err error)
+//@   abstract b, r
+//@   requires c02_row: wfT(t) && (t.T == tLIST || t.T == tSET) && t.V.T == tI16 && !t.V.IsPointer && p != nil
+//@   modifies nothing
+//@   ensures c02_value: err == nil && r == W(t, M, p, b)
+//@   loop 0 invariant c02_elems: vp != nil && i <= n && (i == 0 ==> WL(t, M, vp, n, b) == W(old(t), M, p, old(b))) && (i > 0 ==> WL(t, M, vp + t.Size, n - i, b) == W(old(t), M, p, old(b)))
+
+//@ func appendList_I32(t *tType, b []byte, p unsafe.Pointer) (r []byte, err error)
+//@   abstract b, r
+//@   requires c02_row: wfT(t) && (t.T == tLIST || t.T == tSET) && t.V.T == tI32 && !t.V.IsPointer && p != nil
+//@   modifies nothing
+//@   ensures c02_value: err == nil && r == W(t, M, p, b)
+//@   loop 0 invariant c02_elems: vp != nil && i <= n && (i == 0 ==> WL(t, M, vp, n, b) == W(old(t), M, p, old(b))) && (i > 0 ==> WL(t, M, vp + t.Size, n - i, b) == W(old(t), M, p, old(b)))
+
+//@ func appendList_I64(t *tType, b []byte, p unsafe.Pointer) (r []byte, err error)
+//@   abstract b, r
+//@   requires c02_row: wfT(t) && (t.T == tLIST || t.T == tSET) && (t.V.T == tI64 || t.V.T == tDOUBLE) && !t.V.IsPointer && p != nil
+//@   modifies nothing
+//@   ensures c02_value: err == nil && r == W(t, M, p, b)
+//@   loop 0 invariant c02_elems: vp != nil && i <= n && (i == 0 ==> WL(t, M, vp, n, b) == W(old(t), M, p, old(b))) && (i > 0 ==> WL(t, M, vp + t.Size, n - i, b) == W(old(t), M, p, old(b)))
+
+//@ func appendList_ENUM(t *tType, b []byte, p unsafe.Pointer) (r []byte, err error)
+//@   abstract b, r
+//@   requires c02_row: wfT(t) && (t.T == tLIST || t.T == tSET) && t.V.T == tENUM && !t.V.IsPointer && p != nil
+//@   modifies nothing
+//@   ensures c02_value: err == nil && r == W(t, M, p, b)
+//@   loop 0 invariant c02_elems: vp != nil && i <= n && (i == 0 ==> WL(t, M, vp, n, b) == W(old(t), M, p, old(b))) && (i > 0 ==> WL(t, M, vp + t.Size, n - i, b) == W(old(t), M, p, old(b)))
+
+//@ func appendList_STRING(t *tType, b []byte, p unsafe.Pointer) (r []byte, err error)
+//@   abstract b, r
+//@   requires c02_row: wfT(t) && (t.T == tLIST || t.T == tSET) && t.V.T == tSTRING && !t.V.IsPointer && p != nil
+//@   modifies nothing
+//@   ensures c02_value: err == nil && r == W(t, M, p, b)
+//@   loop 0 invariant c02_elems: vp != nil && i <= n && (i == 0 ==> WL(t, M, vp, n, b) == W(old(t), M, p, old(b))) && (i > 0 ==> WL(t, M, vp + t.Size, n - i, b) == W(old(t), M, p, old(b)))
+
+//@ func appendList_Other(t *tType, b []byte, p unsafe.Pointer) (r []byte, err error)
+//@   abstract b, r
+//@   requires c02_row: wfT(t) && (t.T == tLIST || t.T == tSET) && !t.V.SimpleType && p != nil
+//@   modifies nothing
+//@   ensures c02_value: err == nil ==> r == W(t, M, p, b)
+//@   loop 0 invariant c02_elems: vp != nil && i <= n && (i == 0 ==> WL(t, M, vp, n, b) == W(old(t), M, p, old(b))) && (i > 0 ==> WL(t, M, vp + t.Size, n - i, b) == W(old(t), M, p, old(b)))
+//@   loop 0 hint c02_step: b == Wslot(t, M, vp, head(b))
+//@   loop 0 hint c02_rest: WL(t, M, vp, n - head(i), head(b)) == W(old(t), M, p, old(b))
+
+//@ func appendListAny(t *tType, b []byte, p unsafe.Pointer) (r []byte, err error)
+//@   abstract b, r
+//@   requires c02_row: wfT(t) && (t.T == tLIST || t.T == tSET) && p != nil
+//@   modifies nothing
+//@   ensures c02_value: err == nil ==> r == W(t, M, p, b)
+//@   loop 0 invariant c02_elems: vp != nil && i <= n && (i == 0 ==> WL(t, M, vp, n, b) == W(old(t), M, p, old(b))) && (i > 0 ==> WL(t, M, vp + t.Size, n - i, b) == W(old(t), M, p, old(b)))
+
+// --- maps -----------------------------------------------------------------------
+// hack.go iterator (A-HACK, A-RANGE): abstract state of a wrapped reflect.MapIter value
+//@ spec uf func itMap(it mapIter) Int
+//@ spec uf func itPos(it mapIter) Int
+//@ spec uf func rvMapPtr(v reflect.Value) Int
+
+//@ trusted func reflect.rvWithPtr(rv reflect.Value, p unsafe.Pointer) (r reflect.Value)
+//@   ensures rvMapPtr(r) == ld64(p)
+//@ trusted func reflect.newMapIter(rv reflect.Value) (it mapIter)
+//@   ensures itMap(it) == rvMapPtr(rv) && itPos(it) == 0
+//@ trusted func reflect.(*mapIter).Next(m *mapIter) (k unsafe.Pointer, v unsafe.Pointer)
+//@   requires m != nil
+//@   modifies fields(m)
+//@   ensures itMap(*m) == old(itMap(*m))
+//@   ensures old(itPos(*m)) < nmaplen(old(itMap(*m))) ==> itPos(*m) == old(itPos(*m)) + 1 && k == entryK(old(itMap(*m)), old(itPos(*m))) && v == entryV(old(itMap(*m)), old(itPos(*m))) && k != nil && v != nil
+//@   ensures old(itPos(*m)) >= nmaplen(old(itMap(*m))) ==> itPos(*m) == old(itPos(*m)) && k == nil && v == nil
+
+// entries already written when the loop head is reached (Next has been called for the coming entry)
+//@ spec func itDone(it mapIter, kp Int) Int = kp != 0 ? itPos(it) - 1 : itPos(it)
+
+//@ func appendMapAnyAny(t *tType, b []byte, p unsafe.Pointer) (r []byte, err error)
+//@   abstract b, r
+//@   requires c02_row: wfT(t) && t.T == tMAP && p != nil
+//@   modifies nothing
+//@   ensures c02_value: err == nil ==> r == W(t, M, p, b)
+//@   loop 0 invariant c02_iter: itMap(it) == ld64(p) && 0 <= itDone(it, kp) && itPos(it) <= nmaplen(ld64(p)) && (kp == nil ==> itPos(it) == nmaplen(ld64(p)))
+//@        && (kp != nil ==> itPos(it) >= 1 && kp == entryK(ld64(p), itPos(it) - 1) && vp == entryV(ld64(p), itPos(it) - 1) && vp != nil)
+//@   loop 0 invariant c02_entries: n == u32(mcount(M, p) - itDone(it, kp)) && b == WM(t, M, ld64(p), itDone(it, kp), W_mhdr(old(b), t.K.WT, t.V.WT, mcount(M, p)))
+//@   loop 0 hint c02_step: b == Wslot(t.V, M, head(vp), Wslot(t.K, M, head(kp), head(b)))
+//@   loop 0 hint c02_pos: itDone(it, kp) == head(itDone(it, kp)) + 1 && head(kp) == entryK(ld64(p), head(itDone(it, kp))) && head(vp) == entryV(ld64(p), head(itDone(it, kp)))
